@@ -100,7 +100,7 @@ def opt_obs(tier):
 
 def line_obs(tier):
     N = 14 if tier == "quick" else 16
-    H = 8 if tier == "quick" else 12
+    H = 6 if tier == "quick" else 8
     F = 6 if tier == "quick" else 8
     rc = [["--replace-calls", "evdns_base_set_option_impl:c39_opt_recorder"]]
     o = []
@@ -117,7 +117,7 @@ def line_obs(tier):
         o.append(ob("hosts_line_N%d_af%d" % (H, af), "harness_hosts",
                     "evdns_base_parse_hosts_line(any line <= %d bytes in an exact object; the address parser %s): result and recorded (name, address) "
                     "entries == reference (comment stripped, first field = address without port, remaining fields = names in order); no leak" % (H, what),
-                    ["C39_N=%d" % H, "C39_AF=%d" % af], unwind=H + 3, unwindset=["evdns_base_parse_hosts_line.0:%d" % ((H - 1) // 2 + 2)], timeout=900, mem_gb=8))
+                    ["C39_N=%d" % H, "C39_AF=%d" % af], unwind=H + 3, unwindset=["evdns_base_parse_hosts_line.4:%d" % ((H - 1) // 2 + 2)], timeout=900, mem_gb=8))
     o.append(ob("file_split_N%d" % F, "harness_file",
                 "evdns_base_resolv_conf_parse_impl / evdns_base_load_hosts_impl on any %d-byte file: every newline-separated piece reaches the line "
                 "routine exactly once, in order, with the caller's flags; buffer freed; ndots untouched (excluding KF-C39-ndots-reset)" % F,
